@@ -70,6 +70,11 @@ func (m SeqModel) cfg(dev string, emit string, props, invs []string) string {
 	return b.String()
 }
 
+func (m SeqModel) bounds() string {
+	return fmt.Sprintf("tasks<=%d epics<=%d depth<=%d agents=%v cmds=%v states=%v claims=%v extras=%v docs=%s",
+		m.MaxTasks, m.MaxEpics, m.Depth, m.Agents, m.CmdNames, m.StateArgs, m.ClaimArgs, m.Extras, m.PlanDocs)
+}
+
 type emitted struct {
 	Hist  []Cmd `json:"hist"`
 	Alpha []Cmd `json:"alpha"`
